@@ -13,7 +13,7 @@
    [vtt_needs_line_bound]         small buffer, by computation: the bound is needed and sharp. *)
 From Coq Require Import List ZArith NArith Bool Arith Lia.
 From Astisub Require Import Kit.Base Kit.Str Kit.Scan Kit.ScanLim Model.Dur Model.Vtt.
-From Astisub Require Import Proofs.ScanLimProofs Proofs.EolProofs Proofs.LineBound Proofs.SrtReadProofs.
+From Astisub Require Import Model.Srt Proofs.ScanLimProofs Proofs.EolProofs Proofs.SrtProofs Proofs.LineBound Proofs.SrtReadProofs.
 From Astisub Require Import Proofs.VttBase Proofs.VttLine Proofs.VttDoc Proofs.VttReadLine Proofs.VttReadDoc Proofs.VttReadDec Proofs.VttWriteRender.
 Import ListNotations.
 
@@ -152,6 +152,83 @@ Proof.
 Qed.
 Lemma a_vdoc_repr_48 : repr_vdoc (a_vdoc 46) [] [] /\ repr_vdoc (a_vdoc 47) [] [] /\ repr_vdoc (a_vdoc 48) [] [].
 Proof. split; [|split]; apply a_vdoc_repr_small; vm_compute; reflexivity. Qed.
+
+(* a_vdoc n is representable for every n > 0 (the boolean check is quadratic in n by computation: proved instead) *)
+Lemma a_vline_bytes n : removelast (vline_bytes (mkVline [mkVrun (a_line n) None 0%Z None] [])) = a_line n.
+Proof.
+  rewrite vline_bytes_removelast. unfold voice_part. cbn [vl_voice vl_runs vruns_bytes app].
+  unfold vrun_bytes, run_tags. cbn [vr_color vr_tags vr_time vr_text skipn map concat rev app]. change (0 <? 0)%Z with false. cbv iota.
+  cbn [app]. rewrite !app_nil_r. apply escape_repeat_a.
+Qed.
+Lemma a_line_forallb (f : N -> bool) n : f 97%N = true -> forallb f (a_line n) = true.
+Proof. intros H. unfold a_line. induction (N.to_nat n) as [|k IH]; [reflexivity|]. cbn [repeat forallb]. rewrite H, IH. reflexivity. Qed.
+Lemma a_line_existsb (f : N -> bool) n : f 97%N = false -> existsb f (a_line n) = false.
+Proof. intros H. unfold a_line. induction (N.to_nat n) as [|k IH]; [reflexivity|]. cbn [repeat existsb]. rewrite H, IH. reflexivity. Qed.
+Lemma a_line_head n : (0 < n)%N -> exists r, a_line n = 97%N :: r.
+Proof. intros H. unfold a_line. destruct (N.to_nat n) as [|k] eqn:E; [lia|]. exists (repeat 97%N k). reflexivity. Qed.
+
+Lemma a_vline_ok n : (0 < n)%N -> text_line_ok (mkVline [mkVrun (a_line n) None 0%Z None] []) = true.
+Proof.
+  intros Hn. assert (Ht : trim_space (a_line n) = a_line n) by (apply SrtProofs.trim_space_all_plain, a_line_plain).
+  destruct (a_line_head n Hn) as (r & Er).
+  unfold text_line_ok. rewrite a_vline_bytes. cbn [vl_runs]. rewrite !andb_true_iff. repeat split.
+  - unfold repr_vline. cbn [vl_voice vl_runs chain_ok]. change (voice_ok []) with true. cbn [andb]. rewrite andb_true_r.
+    unfold run_ok. cbn [vr_color vr_text vr_time]. unfold run_tags, timed, nonblank, is_blank, nonul. cbn [vr_tags vr_time vr_text forallb].
+    unfold a_line at 2. rewrite escape_repeat_a. fold (a_line n). rewrite Ht, (a_line_existsb _ n eq_refl), Er. reflexivity.
+  - unfold line_clean. rewrite Ht, str_eqb_refl, (SrtProofs.utf8_valid_ascii _ (SrtProofs.all_plain_ascii _ (a_line_plain n))). cbn [andb].
+    exact (nobrk_repeat _).
+  - unfold line_other. unfold arrow. rewrite (SrtProofs.contains_none 45%N [45; 62]%N (a_line n) (a_line_not_in 45%N n ltac:(discriminate))). rewrite Er. reflexivity.
+Qed.
+Lemma a_vdoc_repr n : (0 < n)%N -> repr_vdoc (a_vdoc n) [] [].
+Proof. intros Hn. apply a_vdoc_repr_small. apply a_vline_ok. exact Hn. Qed.
+
+(* the lines written for it: WEBVTT, an empty line, the identifier, the timing line (29 bytes), the text line *)
+Definition vitem1 (l : vline) : vitem := mkVitem 0 1000000000%Z 2000000000%Z [] None None None [l].
+Definition vdoc1 (l : vline) : vdoc := mkVdoc [vitem1 l] [] [] None.
+Lemma vdoc1_lines l : exists pre, render_vtt (w_hrend (vdoc1 l) [] []) (w_gdoc (vdoc1 l) [] []) (w_cues (vdoc1 l)) [] =
+  pre ++ [removelast (vline_bytes l)] /\ map (@length byte) pre = [6; 0; 1; 29]%nat.
+Proof.
+  exists (hdr_lines (vdoc1 l) [] [] ++ [itoa 1; timing_line (vitem1 l)]). split; [|vm_compute; reflexivity].
+  rewrite <- hdr_cues_render. change (w_cues (vdoc1 l)) with [(w_crend 0 (vitem1 l), w_gcue 0 (vitem1 l))].
+  unfold all_cue_lines. cbn [map concat fst snd].
+  rewrite <- (item_main_cue 0 (vitem1 l)) by (cbn [vitem1 vi_st vi_en]; lia).
+  unfold item_main_lines. cbn [w_crend cr_before vitem1 vi_comments vi_lines note_lines text_lines map app].
+  rewrite <- app_assoc. reflexivity.
+Qed.
+
+(* FOR EVERY BUFFER SIZE above the timing line and every schedule: n letters are read back iff n + 1 <= max *)
+Theorem vtt_line_bound_sharp max n : (30 <= max)%nat -> (0 < n)%N ->
+  repr_vdoc (a_vdoc n) [] [] /\
+  exists data, write_vtt (a_vdoc n) [] [] = Ok data /\ read_vtt data = Ok (ndoc (a_vdoc n) [] []) /\
+    ((N.to_nat n + 1 <= max)%nat -> forall counts, read_vtt_lim max data counts = Ok (ndoc (a_vdoc n) [] [])) /\
+    ((max < N.to_nat n + 1)%nat -> forall counts, exists k, read_vtt_lim max data counts = Err k).
+Proof.
+  intros Hmax Hn. pose proof (a_vdoc_repr n Hn) as Hr. split; [exact Hr|].
+  destruct (write_read_vtt_exact max _ _ _ ltac:(lia) Hr) as (data & Hw & Hin & Hout).
+  destruct (write_read_vtt _ _ _ Hr) as (data' & Hw' & Hrd). rewrite Hw in Hw'. inversion Hw'; subst data'.
+  destruct (vdoc1_lines (mkVline [mkVrun (a_line n) None 0%Z None] [])) as (pre & E & Lp).
+  change (vdoc1 (mkVline [mkVrun (a_line n) None 0%Z None] [])) with (a_vdoc n) in E. rewrite a_vline_bytes in E.
+  rewrite E in Hin, Hout. exists data. split; [exact Hw|]. split; [exact Hrd|].
+  destruct pre as [|p1 [|p2 [|p3 [|p4 [|p5 pre']]]]]; try discriminate Lp. cbn [map] in Lp. injection Lp as L1 L2 L3 L4. split.
+  - intros Hle. apply Hin. cbn [app]. repeat constructor; rewrite ?L1, ?L2, ?L3, ?L4, ?a_line_length; lia.
+  - intros Hgt. apply Hout. cbn [app]. do 4 right. left. rewrite a_line_length. exact Hgt.
+Qed.
+
+(* the real constant: 65535 letters are read back, 65536 are refused (both for every schedule); the document with 65536
+   letters satisfies every hypothesis of C02_write_read *)
+Theorem vtt_real_line_bound_full :
+  repr_vdoc (a_vdoc 65536) [] [] /\
+  (exists data, write_vtt (a_vdoc 65535) [] [] = Ok data /\
+     forall counts, read_vtt_lim max_scan_token data counts = Ok (ndoc (a_vdoc 65535) [] [])) /\
+  (exists data, write_vtt (a_vdoc 65536) [] [] = Ok data /\ read_vtt data = Ok (ndoc (a_vdoc 65536) [] []) /\
+     forall counts, exists k, read_vtt_lim max_scan_token data counts = Err k).
+Proof.
+  split; [apply a_vdoc_repr; reflexivity|]. split.
+  - destruct (vtt_line_bound_sharp max_scan_token 65535 ltac:(unfold max_scan_token; lia) eq_refl) as (_ & data & Hw & _ & Hin & _).
+    exists data. split; [exact Hw|]. apply Hin. unfold max_scan_token. lia.
+  - destruct (vtt_line_bound_sharp max_scan_token 65536 ltac:(unfold max_scan_token; lia) eq_refl) as (_ & data & Hw & Hrd & _ & Hout).
+    exists data. split; [exact Hw|]. split; [exact Hrd|]. apply Hout. unfold max_scan_token. lia.
+Qed.
 
 (* FOR EVERY SCHEDULE (through the exact theorem), buffer of 48 bytes (timing line: 29): 47 letters are read back, 48 are
    refused, and the unbounded splitter of C02_write_read returns the cue *)
